@@ -82,6 +82,9 @@ type methodTarget struct {
 	PkgVal map[string][2]string // "<pkg>.<F>" -> {parameter name, Lean type}: the niladic package-level call `pkg.F()` is that parameter value
 	Own    map[string][]string  // "<M>" -> argument Lean types..., result Lean type: `recv.<M>(args)`, a method promoted from an embedded component, is the parameter function `<M>`
 	IntAcc map[string][2]string // "<M>" -> {parameter name, result Lean type}: niladic method `<M>` called on a value of a Go integer type (`hotstuff.View`)
+	// extensions for the timeout rules (proof agent S21: Simple / Aggregate VerifySyncInfo)
+	Acc2 map[string]string // "<T>.<M>" -> Lean type R: the niladic accessor `x.<M>()` with results (value, bool) on an opaque value x : T, a parameter `T_M : T → R × Bool`
+	// A Lean type `Option X` (the Go type `*X` of a RESULT only): `nil` is `none`, `&v` for a local v : X is `some v`.
 }
 
 // pkgFn: a package-level function translated by the first translator (main.go `targets`)
@@ -176,6 +179,33 @@ var methodTargets = []methodTarget{
 			"(Blk_Hash : Blk → Hash)", "(Blk_View : Blk → Int)", "(Blk_ToBytes : Blk → Bytes)",
 			"(View_ToBytes : Int → Bytes)",
 			"(config_QuorumSize : Int)", "(blockchain_Get : Hash → Blk × Bool)", "(Verify : Sig → Bytes → Bool)"}},
+	// Simple.VerifySyncInfo / Aggregate.VerifySyncInfo (Props/C07RuleGen).  No modelled field.  The sync info is an
+	// opaque value SI whose accessors TC / QC / AggQC have results (value, present); the certificate checks of the
+	// authority are parameters (true = an error; VerifyAggregateQC returns the high QC and an error); the result
+	// `*hotstuff.QuorumCert` is `Option QC` (`nil` = none, `&local` = some local); a signature is pointer-like.
+	{File: "protocol/synchronizer/timeoutrule_simple.go", Recv: "Simple", Fields: []string{},
+		Comp:    []string{"config", "auth"},
+		Methods: []string{"VerifySyncInfo"}, Out: "TimeoutRuleSimple", TypeVars: []string{"SI", "TC", "QC"},
+		Types:     map[string]string{"hotstuff.SyncInfo": "SI", "*hotstuff.QuorumCert": "Option QC", "hotstuff.View": "Int", "error": "Bool"},
+		Accessors: map[string]string{"View": "Int"},
+		Acc2:      map[string]string{"SI.TC": "TC", "SI.QC": "QC"},
+		ExtFn:     map[string][]string{"auth.VerifyTimeoutCert": {"TC", "Bool"}, "auth.VerifyQuorumCert": {"QC", "Bool"}},
+		Ptr:       map[string]string{},
+		Params: []string{"(SI_TC : SI → TC × Bool)", "(SI_QC : SI → QC × Bool)", "(TC_View : TC → Int)", "(QC_View : QC → Int)",
+			"(auth_VerifyTimeoutCert : TC → Bool)", "(auth_VerifyQuorumCert : QC → Bool)"}},
+	{File: "protocol/synchronizer/timeoutrule_aggregate.go", Recv: "Aggregate", Fields: []string{},
+		Comp:    []string{"config", "auth"},
+		Methods: []string{"VerifySyncInfo"}, Out: "TimeoutRuleAggregate", TypeVars: []string{"SI", "TC", "QC", "AggQC", "Sig"},
+		Types:     map[string]string{"hotstuff.SyncInfo": "SI", "*hotstuff.QuorumCert": "Option QC", "hotstuff.View": "Int", "error": "Bool"},
+		Accessors: map[string]string{"View": "Int", "Sig": "Sig"},
+		Acc2:      map[string]string{"SI.TC": "TC", "SI.QC": "QC", "SI.AggQC": "AggQC"},
+		Ext:       map[string][2]string{"auth.VerifyAggregateQC": {"AggQC", "QC"}},
+		ExtFn:     map[string][]string{"auth.VerifyTimeoutCert": {"TC", "Bool"}, "auth.VerifyQuorumCert": {"QC", "Bool"}},
+		Ptr:       map[string]string{"Sig": "Sig_nil"},
+		Deq:       []string{"Sig"},
+		Params: []string{"(Sig_nil : Sig)", "(SI_TC : SI → TC × Bool)", "(SI_QC : SI → QC × Bool)", "(SI_AggQC : SI → AggQC × Bool)",
+			"(TC_View : TC → Int)", "(QC_View : QC → Int)", "(AggQC_View : AggQC → Int)", "(AggQC_Sig : AggQC → Sig)",
+			"(auth_VerifyTimeoutCert : TC → Bool)", "(auth_VerifyQuorumCert : QC → Bool)", "(auth_VerifyAggregateQC : AggQC → QC × Bool)"}},
 }
 
 // rulesTarget: CommitRule / VoteRule (and the helper qcRef where the ruleset has one) of a consensus ruleset.
@@ -941,6 +971,17 @@ func (t *mtr) twoResults(call *ast.CallExpr, c *mctx, ind string) (pre, val, ok2
 			return pre, "r'.1", "r'.2", sig[1], true
 		}
 	}
+	if id, isId := se.X.(*ast.Ident); isId && id.Name != t.recv && t.tg.Acc2 != nil && len(call.Args) == 0 {
+		// `v, ok := x.M()` on an opaque value x (a variable in scope) whose accessor has results (value, bool)
+		x := t.id(id.Name)
+		if rty, found := t.tg.Acc2[t.vtype[x]+"."+se.Sel.Name]; found && c.scope[x] && t.vtype[x] != "" {
+			fn := t.vtype[x] + "_" + se.Sel.Name
+			t.use(fmt.Sprintf("(%s : %s → %s × Bool)", fn, t.vtype[x], rty))
+			t.derefCheck(x)
+			pre = t.flushChecks(ind) + fmt.Sprintf("%slet r' := (%s %s)\n", ind, fn, x)
+			return pre, "r'.1", "r'.2", rty, true
+		}
+	}
 	if id, isId := se.X.(*ast.Ident); isId && id.Name == t.recv && t.tg.Params != nil {
 		if rty, found := t.sib[se.Sel.Name]; found && len(rty) == 2 && rty[1] == "Bool" {
 			app := "(" + t.tg.Recv + "_" + se.Sel.Name + " " + strings.Join(t.paramNames(), " ")
@@ -1016,6 +1057,26 @@ func (t *mtr) block(list []ast.Stmt, c *mctx, ind string, rest func(c *mctx, ind
 					t.use(fmt.Sprintf("(%s : %s)", t.tg.Ptr[t.resTy[i]], t.resTy[i]))
 					rs = append(rs, t.tg.Ptr[t.resTy[i]]) // nil pointer
 					continue
+				}
+				if i < len(t.resTy) && strings.HasPrefix(t.resTy[i], "Option ") && t.tg.Acc2 != nil {
+					// a result of Go type `*X` modelled as `Option X`: `nil` is none, `&v` (the address of a local value v : X,
+					// which the method does not write afterwards: it is returned at once) is `some v`; nothing else
+					inner := strings.TrimPrefix(t.resTy[i], "Option ")
+					if id, ok := r.(*ast.Ident); ok && id.Name == "nil" {
+						rs = append(rs, t.typed("(none : "+t.resTy[i]+")", t.resTy[i]))
+						continue
+					}
+					if ue, ok := r.(*ast.UnaryExpr); ok && ue.Op == token.AND {
+						if id, ok := ue.X.(*ast.Ident); ok && id.Name != "_" && id.Name != "nil" {
+							v := t.id(id.Name)
+							if c.scope[v] && c.local != nil && t.vtype[v] == inner && !inList(c.results, v) {
+								rs = append(rs, t.typed("(some "+v+")", t.resTy[i]))
+								continue
+							}
+						}
+					}
+					t.fail(s, "pointer result outside the forms `nil` / `&local`")
+					return ""
 				}
 				if id, ok := r.(*ast.Ident); ok && id.Name == "nil" && i < len(t.resTy) && t.tg.Elem[t.resTy[i]] != "" {
 					rs = append(rs, t.typed("([] : "+t.resTy[i]+")", t.resTy[i])) // nil slice
@@ -1969,6 +2030,9 @@ func (t *mtr) method(fd *ast.FuncDecl) (string, error) {
 			if z, ok := t.tg.Zero[ty]; ok && zero == "" && t.tg.Comp != nil && len(f.Names) > 0 {
 				t.use(fmt.Sprintf("(%s : %s)", z, ty))
 				zero = z
+			}
+			if zero == "" && t.tg.Acc2 != nil && strings.HasPrefix(ty, "Option ") {
+				zero = "none"
 			}
 			if zero == "" && t.tg.Comp != nil && len(f.Names) > 0 {
 				return "", fmt.Errorf("zero value of the named result type %s", t.src(f.Type))
